@@ -102,3 +102,9 @@ add(
     "Exploration: quick 3k / thorough 50k specs, each with up to 6 perturbations from a catalogue covering every compared field of every node kind (plus the non-compared module order and AuxData values); deep_eq must equal equality of the documented-fields snapshot for every ordered pair among the original, an independently routed copy, a save/load copy and each perturbed copy; on sub-nodes and CFG.deep_eq reflexivity, symmetry, True for corresponding nodes of equal copies and False when the subtree's own content differs are demanded. Sampling, not proof.",
     "Trusts vlib/snapshot.py as the definition of the compared fields, vlib/irbuild.py.",
 )
+add(
+    "C14",
+    "stateful model-based testing over tables x action histories x save/load generations, with foreign-encoded (reference encoder) inputs and a reference decoder as judge",
+    "Exploration: quick 6k / thorough 80k cases of 1-4 tables built outside gtirb (known, partially unknown at any depth with junk after the first reached unknown node or fully well-formed when the unknown part is unreached, and non-canonical encodings with repeated set elements / mapping keys / rotated order), planted at IR and module level and driven through 1-3 generations of {leave, read, mutate in place, assign with or without reading, retype read or unread}; every written table is compared with the model: byte identity for untouched and for unknown-typed tables, otherwise current type name and reference-decoded value equal to the current value (stale bytes are named as such). Sampling, not proof.",
+    "Trusts vlib/auxref.py (encoder/decoder), the model in checks/c14_tables.py, the protobuf runtime.",
+)
